@@ -82,6 +82,7 @@ class Recorder:
         self.samples = []
         self.notes = {}
         self.current_case = None
+        self.harness_errors = []      # exceptions raised by harness code (no library frame): make the run inconclusive
 
     # -- observation API used by workloads -------------------------------
     def begin_case(self, case):
@@ -125,7 +126,14 @@ class Recorder:
                         'seed': self.seed, 'shard': self.shard})
 
     def exception(self, clause, exc, case=None, what=None):
-        key = f'{self.pid}/{clause}/exception/{exc_key(exc)}'
+        ek = exc_key(exc)
+        if ek.endswith('@?'):
+            # no frame of the library on the traceback: the exception was raised by the harness itself (a private helper it relies on is gone, a model cannot
+            # digest a value): that decides nothing about the property - the run is inconclusive, not violated
+            self.harness_errors.append({'clause': clause, 'error': f'{type(exc).__name__}: {str(exc)[:200]}', 'traceback': exc_text(exc, 4)[-600:],
+                                        'case': jsonable(case if case is not None else self.current_case)})
+            return f'{self.pid}/{clause}/harness-error/{type(exc).__name__}'
+        key = f'{self.pid}/{clause}/exception/{ek}'
         self.violation(key, what or f'{clause}: internal error {type(exc).__name__}: {str(exc)[:200]}',
                        detail={'traceback': exc_text(exc)}, case=case)
         return key
@@ -146,7 +154,7 @@ class Recorder:
             'nontrivial': sorted(self.nontrivial), 'clauses': self.clauses,
             'refusals': self.refusals, 'reach': self.reach, 'worst': self.worst,
             'violations': self.violations, 'viol_counts': self.viol_counts,
-            'samples': self.samples, 'notes': jsonable(self.notes),
+            'samples': self.samples, 'notes': jsonable(self.notes), 'harness_errors': self.harness_errors[:5], 'harness_error_count': len(self.harness_errors),
         }
 
 
@@ -241,9 +249,10 @@ def run_shards(pid, tier, seed, nshards, timeout, extra=None):
 
 def merge(results):
     m = {'evaluations': 0, 'cases': 0, 'nontrivial': set(), 'clauses': {}, 'refusals': {}, 'reach': {},
-         'worst': {}, 'violations': {}, 'viol_counts': {}, 'samples': [], 'notes': {}}
+         'worst': {}, 'violations': {}, 'viol_counts': {}, 'samples': [], 'notes': {}, 'harness_errors': [], 'harness_error_count': 0}
     for r in results:
         m['evaluations'] += r['evaluations']
+        m['harness_errors'] += r.get('harness_errors', [])[:3]; m['harness_error_count'] += r.get('harness_error_count', 0)
         m['cases'] += r['cases']
         m['nontrivial'].update(r['nontrivial'])
         for name in ('clauses', 'refusals', 'reach', 'viol_counts'):
@@ -330,6 +339,9 @@ def finish(pid, tier, seed, m, problems, wall, nshards):
         inconclusive.append(f'only {len(m["nontrivial"])} distinct non-trivial cases (< {min_nt})')
     if missing:
         inconclusive.append('required monitors/branches never reached: ' + ', '.join(missing))
+    if m.get('harness_error_count'):
+        h0 = m['harness_errors'][0]
+        inconclusive.append(f"{m['harness_error_count']} exception(s) raised inside the harness itself (no library frame on the traceback), first in clause {h0['clause']}: {h0['error']} :: {h0['traceback'][-300:]}")
 
     if new_viol:
         verdict, code = 'violated', VIOLATED
@@ -356,6 +368,7 @@ def finish(pid, tier, seed, m, problems, wall, nshards):
             'notes': m['notes'],
             'verdict': verdict,
             'inconclusive_reasons': inconclusive,
+            'harness_errors': m.get('harness_errors', [])[:3],
             'known_findings_seen': {k['key']: k['what'] for _, k in known_hits},
             'violation_keys': {k: m['viol_counts'].get(k) for k in new_viol},
             'repo': REPO,
